@@ -22,14 +22,14 @@ type flTree struct {
 }
 
 var flTargets = []string{"d1", "/d1", "./d1/../d2", "../d2", "../../d2", "d1/l2", "/l1", "l1", ".", "/", "d2/g", "missing", "d1/l2/../g", "/d1/l2/g"}
-var flRequests = [][]string{{"l1"}, {"d1/l2"}, {"l1/g"}, {"l1/l2"}, {"d1/l2/g"}, {"l1", "d1/l2"}, {"d2"}, {"d2/g", "l1"}, {"l*"}, {"d1/l?"}, {"missing/x"}, {"l1/../d2"}}
+var flRequests = [][]string{{"l1"}, {"d1/l2"}, {"l1/g"}, {"l1/l2"}, {"d1/l2/g"}, {"l1", "d1/l2"}, {"d2"}, {"d2/g", "l1"}, {"l*"}, {"d1/l?"}, {"missing/x"}, {"l1/../d2"}, {"../d2"}, {"../l1/g"}, {"../../d2/g", "l1"}}
 
 type flRef struct {
-	traversed []string
-	final     string
-	loop      bool
-	root      bool
-	revisit   bool // a symlink path was traversed more than once (F8 class)
+	traversed       []string
+	final           string
+	loop            bool
+	root            bool
+	revisit         bool // a symlink path was traversed more than once (F8 class)
 	dotdotAfterLink bool // ".." directly after a component that is a symlink (F7 class)
 }
 
@@ -133,16 +133,16 @@ func flCovered(out []string, p string) bool {
 func TestGovcStandinFollowLinks(t *testing.T) {
 	outFile := os.Getenv("GOVC_STANDIN_OUT")
 	type res struct {
-		Evaluations   int      `json:"evaluations"`
-		Distinct      int      `json:"distinct_nontrivial"`
-		Hangs         int      `json:"hangs"`
-		NotSorted     int      `json:"not_sorted_or_nested"`
-		NotCovered    int      `json:"closure_violations_outside_known_classes"`
-		KnownF7       int      `json:"known_class_F7_dotdot_after_link"`
-		KnownF8       int      `json:"known_class_F8_link_revisited"`
-		RootMismatch  int      `json:"root_mismatch"`
-		Samples       []string `json:"samples"`
-		Failures      []string `json:"failures"`
+		Evaluations  int      `json:"evaluations"`
+		Distinct     int      `json:"distinct_nontrivial"`
+		Hangs        int      `json:"hangs"`
+		NotSorted    int      `json:"not_sorted_or_nested"`
+		NotCovered   int      `json:"closure_violations_outside_known_classes"`
+		KnownF7      int      `json:"known_class_F7_dotdot_after_link"`
+		KnownF8      int      `json:"known_class_F8_link_revisited"`
+		RootMismatch int      `json:"root_mismatch"`
+		Samples      []string `json:"samples"`
+		Failures     []string `json:"failures"`
 	}
 	var r res
 	seen := map[string]bool{}
